@@ -410,3 +410,18 @@ pub(crate) fn level_base_bytes(default: f64) -> f64 {
         base => base as f64,
     }
 }
+
+static LEVEL_GROWTH_DIVISOR: AtomicU64 = AtomicU64::new(1);
+
+/**
+Divide the tenfold growth of the size limit from one level to the next by `divisor` (1 = built-in
+growth of 10x per level, 5 = 2x per level). Together with [`set_level_base_bytes`] this lets a few
+kilobytes of data reach the deepest level.
+*/
+pub fn set_level_growth_divisor(divisor: u64) {
+    LEVEL_GROWTH_DIVISOR.store(divisor.max(1), Ordering::SeqCst);
+}
+
+pub(crate) fn level_growth(limit_after_tenfold_growth: f64) -> f64 {
+    limit_after_tenfold_growth / (LEVEL_GROWTH_DIVISOR.load(Ordering::Relaxed).max(1) as f64)
+}
